@@ -293,7 +293,6 @@ class Differ:
 EQUIV = {
     ("string_value", "STRING"): "two quoted-string regexes as alternatives vs one regex with the same two branches (branch order irrelevant: first characters differ)",
     ("re_match", "ReMatch"): "one regex /…/ vs '/' body '/' — same language; only leading whitespace inside the slashes is skipped differently (model value, not acceptance)",
-    ("comment", "Comment"): "same two regexes", ("comment_line", "CommentLine"): "same regex", ("comment_block", "CommentBlock"): "same regex",
 }
 def _check_arpeggio_choice():
     """N1 relies on OrderedChoice._parse accepting an alternative only if its result is not None"""
@@ -339,6 +338,26 @@ def r_C24(root):
                     elif isinstance(c, list):
                         for x in c: w(x)
         w(("ref", start)); return acc
+    # machine-checked side conditions of the two remaining table equivalences (EQUIV)
+    from sa import rx as _rx
+    def _flat_re(t):
+        """regex source of a term built from regex terminals, string literals, sequence and ordered choice; else None"""
+        import re as _re_
+        if t[0] == "re": return "(?:%s)" % t[1]
+        if t[0] == "lit": return _re_.escape(t[1])
+        if t[0] == "seq":
+            ps = [_flat_re(x) for x in t[1]]; return None if None in ps else "".join(ps)
+        if t[0] == "alt":
+            ps = [_flat_re(x) for x in t[1]]; return None if None in ps else "(?:%s)" % "|".join(ps)
+        return None
+    for (ra, rb) in sorted(EQUIV):
+        pa, pb = (_flat_re(A[ra]) if ra in A else None), (_flat_re(B[rb]) if rb in B else None)
+        if pa is None or pb is None:
+            out.append(Finding("C24", "C24.a", "textx/textx.tx", "%s ~ %s" % (ra, rb), "shape", "the table equivalence %s ~ %s (%s) no longer has the regex-only shape it was confirmed for" % (ra, rb, EQUIV[(ra, rb)]))); continue
+        try: eq, w = _rx.compare(pa, pb)
+        except _rx.Unsupported as e: raise AnalysisError("equivalence %s ~ %s: %s" % (ra, rb, e))
+        d.paired.add((ra, rb, "language"))
+        if not eq: out.append(Finding("C24", "C24.a", "textx/textx.tx", "%s ~ %s" % (ra, rb), "regex: /%s/ vs /%s/" % (pa[:60], pb[:60]), "grammar compiler and self-hosted grammar accept different tokens here: %r is accepted by one of them only" % w, witness=w))
     la, lb = lits(A, "textx_model"), lits(B, "TextxModel")
     for x in sorted(la - lb - {"/"}): out.append(Finding("C24", "C24.b", "textx/textx.tx", "vocabulary", repr(x), "literal of the grammar compiler missing from the self-hosted grammar"))
     for x in sorted(lb - la - {"/"}): out.append(Finding("C24", "C24.b", "textx/lang.py", "vocabulary", repr(x), "literal of the self-hosted grammar missing from the grammar compiler"))
